@@ -140,11 +140,23 @@ def parseACalls (s : String) : List Spec.ACall :=
     -- local call, evaluated here / by the other object (the functional carries the creator's index offsets)
     if t.startsWith "L" || t.startsWith "H" || t.startsWith "I" then some (.loc body)
     else if t.startsWith "F" || t.startsWith "G" then some (.fp body)
-    else if t.startsWith "S" then
+    -- S `::f()` / `A::f()`; J the same call inside a functional `(: ::f() :)` evaluated here; K that functional evaluated
+    -- by ANOTHER object (it refers to no global and no local function: only the offsets saved in the pointer tell
+    -- the inherited function which copy of the variables and which slots are its own)
+    else if t.startsWith "S" || t.startsWith "J" || t.startsWith "K" then
       match body.splitOn "." with
       | ["*", f] => some (.sup none f)
       | [a, f] => some (.sup (some a) f)
       | _ => none
+    -- M `(: A::f() :)` and O `(: f() :)` are made and STORED in /c07/caller; N fetches the stored functional of this
+    -- object back and evaluates it in whatever function (of whatever inherit level) executes the N
+    else if t.startsWith "M" then
+      match body.splitOn "." with
+      | ["*", f] => some (.stashSup none f)
+      | [a, f] => some (.stashSup (some a) f)
+      | _ => none
+    else if t.startsWith "O" then some (.stashLoc body)
+    else if t == "N" then some .runStash
     else none
 
 def parseProg (ts : List String) : Option Spec.AProg :=
@@ -236,6 +248,9 @@ def toItems (progIdx : String → Nat) (key : String → Nat) (items : List Stri
         | .loc n => SrcCall.loc (key n)
         | .fp n => SrcCall.fp (key n)
         | .sup par n => SrcCall.sup (par.map progIdx) (key n)
+        | .stashSup par n => SrcCall.stashSup (par.map progIdx) (key n)
+        | .stashLoc n => SrcCall.stashLoc (key n)
+        | .runStash => SrcCall.runStash
       some (Item.defn (modBits m) (key f) f calls)
     | _ => none
   let extra := items.filterMap fun it =>
@@ -466,7 +481,7 @@ def runJudge (body : List String) : List String :=
         { Spec.specLoad g (g.length + 1) st pi with labels := (oid, pi) :: st.labels }
       | .call o oid fn args => Spec.specCall g st o.str oid fn args
       | .callT isArray ts fn => Spec.specCallTargets g st isArray (ts.map toST) fn
-      | .reload => { st with objs := [], labels := [] }     -- every object is gone; variables start from 0 again
+      | .reload => { st with objs := [], labels := [], stash := none }   -- every object is gone; variables start from 0
       | _ => st) {}
     let expRev := st.evs
     let obs := impl.filterMap parseEv
